@@ -152,6 +152,13 @@ func (m *Matcher) pat(p *ref.Pat, top bool) bool {
 		return m.num(p.Num)
 	case "text":
 		return m.segs(p.Segs)
+	case "backref":
+		for _, mark := range []string{"[...]", "map[...]", "{...}", "<...>", "...", "<cycle>", "<circular>", "<recursive>"} {
+			if m.lit(mark) {
+				return true
+			}
+		}
+		return m.fail("expected a back-reference marker for a self-containing value")
 	case "fn":
 		if !m.lit("<") {
 			return m.fail("expected a function value rendering <...>")
